@@ -234,6 +234,45 @@ pub fn run(ctx: &mut Ctx) {
             ctx.ev.sample(json!({"case": name, "ledger": ledger::dsl(&l).lines().collect::<Vec<_>>()}));
         }
     }
+    // capital returns, accumulations and dividends in foreign currencies, each amount in a currency of its own
+    // (TOTAL in dollars, FEES or TAX in euros or pounds): the report is that of the same ledger with every amount
+    // converted beforehand at its own currency's rate for the month
+    if let Ok(fx) = cgt_money::load_default_cache() {
+        use cgt_money::Currency;
+        let cfg2 = run_impl::config_from(&run_impl::embedded_exemptions());
+        let mut rr = Rng::new(ctx.seed ^ 0xC11F);
+        for i in 0..ctx.n(40, 1500) {
+            let y = 2017 + rr.below(7) as i32;
+            let mo = 2 + rr.below(9) as u32;
+            let cur = |r: &mut Rng| *r.pick(&["USD", "EUR", "GBP", "CHF"]);
+            let (c1, c2) = (cur(&mut rr), cur(&mut rr));
+            let total = Decimal::new(rr.range(1_000, 40_000), 2);
+            let fee = Decimal::new(rr.range(100, 3_000), 2);
+            let kind = ["CAPRETURN", "ACCUMULATION", "DIVIDEND"][i as usize % 3];
+            let clause = if kind == "CAPRETURN" { "FEES" } else { "TAX" };
+            let event = |t: String, f: String| if kind == "DIVIDEND" { format!("{y}-{mo:02}-15 DIVIDEND ACME TOTAL {t} {clause} {f}") } else { format!("{y}-{mo:02}-15 {kind} ACME 100 TOTAL {t} {clause} {f}") };
+            let conv = |a: Decimal, c: &str| -> Option<Decimal> { if c == "GBP" { Some(a) } else { fx.get(Currency::from_code(c)?, y, mo).map(|e| a / e.rate_per_gbp) } };
+            let (Some(tg), Some(fg)) = (conv(total, c1), conv(fee, c2)) else { continue };
+            let head = format!("{y}-01-05 BUY ACME 100 @ 10\n");
+            let tail = format!("\n{y}-{:02}-20 SELL ACME 40 @ 12\n", mo + 1);
+            let foreign = format!("{head}{}{tail}", event(format!("{total} {c1}"), format!("{fee} {c2}")));
+            let twin = format!("{head}{}{tail}", event(format!("{tg}"), format!("{fg}")));
+            let run = |text: &str| cgt_core::parser::parse_file(text).map_err(|e| e.to_string()).and_then(|t| std::panic::catch_unwind(std::panic::AssertUnwindSafe(|| cgt_core::calculator::calculate(&t, None, Some(&fx), &cfg2))).map_err(|_| "panic".to_string())?.map_err(|e| e.to_string()));
+            ctx.ev.evaluations += 1;
+            ctx.ev.count("mixed-currency-events");
+            match (run(&foreign), run(&twin)) {
+                (Ok(a), Ok(b)) => {
+                    let (ja, jb) = (serde_json::to_value(&a).unwrap_or_default(), serde_json::to_value(&b).unwrap_or_default());
+                    if ja["tax_years"] != jb["tax_years"] || ja["holdings"] != jb["holdings"] {
+                        ctx.ev.violation("oracle", format!("a {kind} with TOTAL in {c1} and {clause} in {c2} is not reported as the same event with both amounts converted at their own currencies' rates"), format!("# property C11\n# oracle: foreign-currency event vs the same ledger converted beforehand (bundled rates)\n{foreign}# converted:\n{twin}"));
+                    }
+                    if c1 != c2 { ctx.ev.nontrivial.insert(foreign.clone()); }
+                }
+                (Err(a), Err(_)) => { let _ = a; ctx.ev.count("mixed-currency-events:both-refused"); }
+                (a, b) => ctx.ev.violation("oracle", format!("a {kind} with TOTAL in {c1} and {clause} in {c2}: accepted {} but its converted twin {}", a.is_ok(), b.is_ok()), format!("# property C11\n{foreign}# converted:\n{twin}")),
+            }
+        }
+    }
     // the D6 witness is replayed on the real code every run
     if let Ok(w) = ledger::from_dsl("2024-01-01 BUY A 10 @ 100\n2024-02-01 SELL A 1 @ 100\n2024-02-05 BUY A 1 @ 1\n2024-03-01 CAPRETURN A 10 TOTAL 550\n") {
         if let Ok(out) = run_impl::impl_match(&w) {
